@@ -183,7 +183,7 @@ def run(ctx, rng, k, cancel_prob=0.0, max_polls=40, local_prob=0.0, entry="direc
             st["cancel_at"] = 0
             st["events_at_cancel"] = 0
             st["nontrivial"] = True
-    mon = {"C18": [], "C07": [], "C12": [], "C05": [], "C01": []}
+    mon = {"C18": [], "C07": [], "C12": [], "C05": [], "C01": [], "C03": []}
     st = {"polls": 0, "cancel_at": None, "nontrivial": False, "cancel_calls": 0, "seen_events": 0}
     # C01 at the level of the staged study: the parents of an instance are read
     # from the execution graph's adjacency table (what `maestro status` and the
@@ -313,6 +313,20 @@ def run(ctx, rng, k, cancel_prob=0.0, max_polls=40, local_prob=0.0, entry="direc
     if st["cancel_at"] is not None and ret in ("FINISHED", "FAILURE"):
         mon["C05"].append(("verdict-truthful", "cancel requested after poll %d (%s) but the conductor returned %s"
                            % (st["cancel_at"], "only local steps" if all_local else "scheduled steps", ret)))
+    # C03 at the level of the whole command: the throttle the user asked for (-t / configure_study)
+    if opts["throttle"] > 0 and S.WORLD.peak_live > opts["throttle"]:
+        mon["C03"].append(("throttle", "%d scheduler jobs were live at once with throttle %d (%d instances, "
+                           "entered through %s)" % (S.WORLD.peak_live, opts["throttle"], len(names), entry)))
+    if opts["throttle"] == 0 and not all_local and st["cancel_at"] is None:
+        # unthrottled: everything that is ready goes out in the poll in which it became ready
+        first = [ev for ev in S.WORLD.all_events if ev[0] in ("submit", "local", "check")]
+        roots = [nm for nm in names if not env["parents"].get(nm)]
+        upto = next((i for i, ev in enumerate(first) if ev[0] == "check" and i > 0), len(first))
+        sent = set(ev[1] for ev in first[:upto] if ev[0] in ("submit", "local"))
+        missing = [nm for nm in roots if nm not in sent]
+        if missing and ret not in ("NONTERMINATION",) and not str(ret).startswith("RAISE"):
+            mon["C03"].append(("unthrottled-takes-all", "no throttle, but the first poll left the root steps %s "
+                               "unsubmitted" % missing[:4]))
     states = {nm: dag.values[nm].status.name for nm in names}
     if ret == "FINISHED" and any(v != "FINISHED" for v in states.values()):
         mon["C05"].append(("verdict-truthful", "returned FINISHED with states %s" % states))
